@@ -1383,5 +1383,5 @@ pub fn gen_module(words: &[u32], profile: &Profile, name: &str) -> Module {
             }
         }
     }
-    Module { name: name.to_string(), types: cx.types, insts, serde: profile.serde, extra_roots: vec![] }
+    Module { name: name.to_string(), types: cx.types, insts, serde: profile.serde, extra_roots: vec![], without_ts_derive: false }
 }
